@@ -1161,6 +1161,12 @@ pub fn run_check(tier_name: &str, seed: u64, verif_dir: &str) -> Outcome {
         }
         edited_programs = extra.len();
     }
+    // the marathons are single-threaded and long: they go first, so that they run beside the
+    // many short scenarios instead of after them
+    {
+        let long = scenarios.iter().rev().take_while(|s| s.threads.len() == 1 && job_count(s) >= 100).count();
+        scenarios.rotate_right(long);
+    }
     let results: Vec<JobsResult> = par_map(&scenarios, w, |_, sc| run_scenario(sc));
 
     // ---- compare
